@@ -1,5 +1,6 @@
 mod comps;
 mod drive;
+mod exec;
 mod h;
 mod handles;
 mod json;
@@ -47,6 +48,12 @@ fn main() {
             let input: String = arg(&args, "--in", String::new());
             let (n, p) = nest::run(&input, &mut hh.out, args.iter().any(|a| a == "--ar-empty"));
             eprintln!("scripts={} unwound={}", n, p);
+        }
+        "exec" => {
+            let input: String = arg(&args, "--in", String::new());
+            hh.max_dump = 64;
+            hh.decl();
+            exec::run(&mut hh, &input);
         }
         "handles" => {
             let input: String = arg(&args, "--in", String::new());
